@@ -394,7 +394,7 @@ def decorate(shape, name, rng, level=1.0):
     if p(0.06):
         normal = [f["n"] for f in spec["fields"] if not is_initvar(f)]
         if normal:
-            spec["arg_validator"] = {"n": "av", "reads": sorted(rng.sample(normal, rng.randint(1, min(2, len(normal))))), "style": rng.choice(["raise", "y_msg", "y_raw"])}
+            spec["arg_validator"] = {"n": "av", "reads": sorted(rng.sample(normal, rng.randint(1, min(2, len(normal))))), "style": rng.choice(["raise", "y_msg", "y_raw"]), "via": rng.choice(["arg", "annotated"])}
     return spec
 
 
